@@ -2,16 +2,22 @@
 
 proof stage    : Props/C07.v (drift: sqrt_one, dz, straight line, flow, closed form, Jacobian entries; TDC at V=0;
                  quadrupole: transverse block = linear map, exact flow incl. z, num_steps independence, on-axis = drift,
-                 offset round trip, R56)
+                 offset round trip, R56; dipole: fringe kicks = edge matrices, body = exact motion in a uniform field (one circle of radius
+                 px_norm/g, closed-form sector map, arc length), closed design orbit, c1 = c2, Jacobian of the sector map)
 correspondence : Drift(tracking_method="bmadx").track on 1-3 paraxial particles (|delta| <= 0.05) vs the Coq model
                  drift_bmadx_track via `interval` (x, y, tau of every particle, returned energy);
                  Quadrupole(tracking_method="bmadx").track (k1 of both signs and 0, tilt, misalignment, num_steps 1/2/5,
                  both branches of low_energy_z_correction) vs the Coq model Bmadx/QuadX.v quad_bmadx_track: all six
-                 coordinates of every particle + returned energy, tactic Bmadx/QuadXTac.v (staged `interval`)
+                 coordinates of every particle + returned energy, tactic Bmadx/QuadXTac.v (staged `interval`);
+                 Dipole(tracking_method="bmadx").track (angles +-(0.02..0.6) and +-(1.6..2.6): both exit-position branches; e1/e2, gap/fint with
+                 gap_exit/fint_exit differing, tilt, the four fringe_at variants, few MeV..GeV, delta up to +-0.05) vs the Coq model
+                 Bmadx/BendX.v bend_bmadx_track: all six coordinates + energy, tactic Bmadx/BendXTac.v (evaluation chain, branch masks
+                 chosen by the harness and proved as side conditions)
 oracles (implementation alone): autograd Jacobian at the design orbit vs transfer_map (Drift, Quadrupole, Dipole),
                  track(L1);track(L2) vs track(L1+L2) (Drift, Quadrupole incl. num_steps, Dipole), straight-line drift in
-                 50-digit arithmetic, TDC(V=0) vs Drift(bmadx), on-axis quadrupole = drift, momentum scaling of the quadrupole.
-Known NaN configurations (finding F8 of C09: Bmad-X Dipole angle=0, Quadrupole/Dipole length=0) are not generated.
+                 50-digit arithmetic, TDC(V=0) vs Drift(bmadx), on-axis quadrupole = drift, momentum scaling of the quadrupole, dipole body vs an
+                 independent 40-digit computation of the motion in a uniform field.
+Known finding F70 (bend angle < -pi: wrong path length) is replayed on every run.  Known NaN configurations (finding F8 of C09: Bmad-X Dipole angle=0, Quadrupole/Dipole length=0) are not generated.
 """
 import json
 import math
@@ -536,7 +542,9 @@ def main(tier, replay=None):
     run.cov["rule"] = ("Drift/Quadrupole/Dipole/TDC with tracking_method='bmadx': lengths 0.05..1.5 m, k1 in {0, +-1, +-12}, tilt {0, random, pi/4}, num_steps "
                        "{1,2,5}, bend angles +-(0.02..0.6) rad, edge angles, gap/fint (gap_exit=gap, fint_exit=fint); energies 1.6 MeV..5 GeV; 1-3 paraxial "
                        "particles (|x|,|px| <= 2e-3, |delta| <= 0.05); quadrupoles of the Coq correspondence additionally misaligned (<= 1 mm), k1 in {0, +-(0.5..12), +-1}, "
-                       "num_steps cycling 1/2/5, delta in {0, +-(1e-4..2e-3), +-0.05} at 2 MeV..5 GeV so that both branches of low_energy_z_correction occur; NaN configurations of finding F8 (angle=0, length=0) are not generated; "
+                       "num_steps cycling 1/2/5, delta in {0, +-(1e-4..2e-3), +-0.05} at 2 MeV..5 GeV so that both branches of low_energy_z_correction occur; dipoles of the Coq correspondence: "
+                       "angles +-(0.02..0.6) and +-(1.6..2.6) rad cycling (both exit-position branches c1/c2, both arctan2 quadrants), gap_exit/fint_exit differing from gap/fint in half of the cases, "
+                       "tilt {0, random, pi/2}, fringe_at cycling both/entrance/exit/neither, delta in {0, +-0.05}; NaN configurations of finding F8 (angle=0, length=0) are not generated; "
                        "non-trivial = every case (non-zero length, off-axis particles); distinct by full input")
     if replay:
         return do_replay(run, replay)
